@@ -79,6 +79,10 @@ pub fn company_for(n: usize) -> String {
     }
 }
 
+pub fn bulk_embedding(k: usize) -> Vec<f32> {
+    vec![k as f32, ((k * k) % 97) as f32]
+}
+
 pub fn embedding_for(n: usize) -> Vec<f32> {
     vec![n as f32 + 1.0, -(n as f32) * 0.5 - 1.0]
 }
@@ -546,6 +550,12 @@ impl Driver {
         for (s, d) in bad {
             self.violation(&s, d);
         }
+        if self.cfg.prop == "C14" {
+            self.check_vec(when);
+        }
+        if self.cfg.prop == "C08" {
+            self.check_reads(when);
+        }
     }
 
     /// C26: every card, enrichment record and queue entry names the frame it came from.
@@ -605,6 +615,233 @@ impl Driver {
         }
     }
 
+    /// C14: the frames findable by vector search are exactly the active embedded frames.
+    pub fn check_vec(&mut self, when: &str) {
+        let model = self.model.clone();
+        let Some(mem) = self.mem.as_mut() else { return };
+        let want: std::collections::BTreeMap<u64, Vec<f32>> = model.frames.iter().filter(|f| f.status == MStatus::Active).filter_map(|f| f.embedding.clone().map(|e| (f.id, e))).collect();
+        let mut bad: Vec<(String, String)> = Vec::new();
+        let m = want.len();
+        let dim = want.values().next().map_or(2, |e| e.len());
+        if m > 500 {
+            // large index (possibly an approximate representation): probe individual frames
+            // instead of asking for everything at once
+            let inactive: Vec<&MFrame> = model.frames.iter().filter(|f| f.status != MStatus::Active && f.embedding.is_some()).collect();
+            let ids: Vec<u64> = want.keys().copied().collect();
+            let mut probes: Vec<u64> = vec![ids[0], ids[1], ids[ids.len() / 2], ids[ids.len() - 2], ids[ids.len() - 1]];
+            probes.dedup();
+            for id in probes {
+                let e = &want[&id];
+                match guard(|| mem.search_vec(e, 3)) {
+                    Ok(Ok(hits)) => {
+                        if !hits.iter().any(|h| h.frame_id == id) {
+                            bad.push(("vec-membership:large-index:embedded-frame-not-found".into(), format!("{when}: search_vec(embedding of frame {id}, 3) returned {:?} ({m} active embedded frames)", hits.iter().map(|h| h.frame_id).collect::<Vec<_>>())));
+                        }
+                        for h in &hits {
+                            if !want.contains_key(&h.frame_id) {
+                                bad.push(("vec-membership:large-index:inactive-frame-found".into(), format!("{when}: search_vec returned frame {} which is not an active embedded frame", h.frame_id)));
+                            }
+                        }
+                    }
+                    Ok(Err(e)) => bad.push(("vec-search-failed".into(), format!("{when}: Err: {e}"))),
+                    Err(p) => bad.push(("panic:search-vec".into(), p)),
+                }
+            }
+            for f in inactive.iter().take(3) {
+                if let Ok(Ok(hits)) = guard(|| mem.search_vec(f.embedding.as_ref().unwrap(), 3)) {
+                    if hits.iter().any(|h| h.frame_id == f.id) {
+                        bad.push(("vec-membership:large-index:inactive-frame-found".into(), format!("{when}: search_vec returned inactive frame {}", f.id)));
+                    }
+                }
+            }
+            if let Ok(st) = mem.stats() {
+                if st.vector_count != m as u64 {
+                    bad.push(("vec-membership:large-index:vector-count".into(), format!("{when}: stats.vector_count {} but {m} active embedded frames", st.vector_count)));
+                }
+            }
+            self.outcomes.push("vec-members:large".into());
+            let mut seen = std::collections::HashSet::new();
+            for (s, d) in bad {
+                if seen.insert(s.clone()) {
+                    self.violation(&s, d);
+                }
+            }
+            return;
+        }
+        match guard(|| mem.search_vec(&vec![0.25; dim], m + 5)) {
+            Err(p) => bad.push(("panic:search-vec".into(), p)),
+            Ok(Err(e)) => {
+                if m > 0 {
+                    bad.push(("vec-search-failed".into(), format!("{when}: Err: {e}")));
+                }
+            }
+            Ok(Ok(hits)) => {
+                let got: std::collections::BTreeSet<u64> = hits.iter().map(|h| h.frame_id).collect();
+                let wantset: std::collections::BTreeSet<u64> = want.keys().copied().collect();
+                if got != wantset {
+                    let missing: Vec<u64> = wantset.difference(&got).copied().collect();
+                    let extra: Vec<u64> = got.difference(&wantset).copied().collect();
+                    let sig = if !missing.is_empty() && extra.is_empty() { "vec-membership:embedded-frames-missing" } else if missing.is_empty() { "vec-membership:inactive-or-unembedded-frames-found" } else { "vec-membership:wrong-frames" };
+                    bad.push((sig.into(), format!("{when}: vector search finds frames {got:?}, reference has {wantset:?} (missing {missing:?}, extra {extra:?})")));
+                }
+                if hits.len() != got.len() {
+                    bad.push(("vec-membership:frame-returned-twice".into(), format!("{when}: {} hits for {} frames", hits.len(), got.len())));
+                }
+            }
+        }
+        for (id, emb) in &want {
+            match guard(|| mem.frame_embedding(*id)) {
+                Ok(Ok(Some(e))) if e == *emb => {}
+                Ok(Ok(other)) => bad.push(("vec-membership:frame-embedding-differs".into(), format!("{when}: frame_embedding({id}) = {other:?}, reference {emb:?}"))),
+                Ok(Err(e)) => bad.push(("vec-membership:frame-embedding-failed".into(), format!("{when}: frame_embedding({id}) Err: {e}"))),
+                Err(p) => bad.push(("panic:frame-embedding".into(), p)),
+            }
+        }
+        if let Ok(st) = mem.stats() {
+            if st.vector_count != m as u64 {
+                bad.push(("vec-membership:vector-count".into(), format!("{when}: stats.vector_count {} but {m} active embedded frames", st.vector_count)));
+            }
+        }
+        self.outcomes.push(format!("vec-members:{}", m.min(4)));
+        for (s, d) in bad {
+            self.violation(&s, d);
+        }
+    }
+
+    /// C08: no read path returns an inactive frame; lookups resolve to the newest version.
+    pub fn check_reads(&mut self, when: &str) {
+        let model = self.model.clone();
+        let Some(mem) = self.mem.as_mut() else { return };
+        let mut bad: Vec<(String, String)> = Vec::new();
+        let active = |id: u64| model.frames.get(id as usize).map_or(false, |f| f.status == MStatus::Active);
+        struct NoEmbedder;
+        impl memvid_core::VecEmbedder for NoEmbedder {
+            fn embed_query(&self, _t: &str) -> memvid_core::Result<Vec<f32>> {
+                Ok(vec![0.5, 0.5])
+            }
+            fn embedding_dimension(&self) -> usize {
+                2
+            }
+        }
+        // every word ever stored in an un-chunked text document
+        let words: Vec<(String, u64)> = model.frames.iter().filter_map(|f| f.word.clone().map(|w| (w, f.id))).collect();
+        for (w, _) in &words {
+            // frames that should be found: active frames whose text carries the word
+            for no_sketch in [false, true] {
+                let req = memvid_core::SearchRequest { query: w.clone(), top_k: 20, snippet_chars: 80, uri: None, scope: None, cursor: None, as_of_frame: None, as_of_ts: None, no_sketch, acl_context: None, acl_enforcement_mode: Default::default() };
+                match guard(|| mem.search(req)) {
+                    Err(p) => bad.push(("panic:search".into(), p)),
+                    Ok(Err(_)) => {}
+                    Ok(Ok(r)) => {
+                        for h in &r.hits {
+                            if !active(h.frame_id) {
+                                bad.push(("reads:search-returns-inactive-frame".into(), format!("{when}: search({w}, no_sketch={no_sketch}) returned inactive frame {}", h.frame_id)));
+                            }
+                            // (an active successor may legitimately still match an old word: tags derived
+                            // from the old text are inherited by an update and are part of the searchable
+                            // text, so "old word found nowhere" would demand more than the statement)
+                        }
+                    }
+                }
+            }
+            // ask, context only, lexical
+            let areq = memvid_core::AskRequest { question: w.clone(), top_k: 10, snippet_chars: 80, uri: None, scope: None, cursor: None, start: None, end: None, context_only: true, mode: memvid_core::AskMode::Lex, as_of_frame: None, as_of_ts: None, adaptive: None, acl_context: None, acl_enforcement_mode: Default::default() };
+            match guard(|| mem.ask(areq, None::<&NoEmbedder>)) {
+                Err(p) => bad.push(("panic:ask".into(), p)),
+                Ok(Err(_)) => {}
+                Ok(Ok(resp)) => {
+                    let mut ids: Vec<u64> = resp.retrieval.hits.iter().map(|h| h.frame_id).collect();
+                    ids.extend(resp.citations.iter().map(|c| c.frame_id));
+                    ids.extend(resp.context_fragments.iter().map(|c| c.frame_id));
+                    for id in ids {
+                        if !active(id) {
+                            bad.push(("reads:ask-returns-inactive-frame".into(), format!("{when}: ask({w}) refers to inactive frame {id}")));
+                        }
+                    }
+                }
+            }
+        }
+        // vector paths
+        let embs: Vec<Vec<f32>> = model.frames.iter().filter_map(|f| f.embedding.clone()).collect();
+        for e in embs.iter().take(4) {
+            if let Ok(Ok(hits)) = guard(|| mem.search_vec(e, 50)) {
+                for h in hits {
+                    if !active(h.frame_id) {
+                        bad.push(("reads:search-vec-returns-inactive-frame".into(), format!("{when}: search_vec returned inactive frame {}", h.frame_id)));
+                    }
+                }
+            }
+            if let Ok(Ok(r)) = guard(|| mem.vec_search_with_embedding("anything", e, 50, 80, None)) {
+                for h in r.hits {
+                    if !active(h.frame_id) {
+                        bad.push(("reads:vec-search-with-embedding-returns-inactive-frame".into(), format!("{when}: inactive frame {}", h.frame_id)));
+                    }
+                }
+            }
+            let cfg = memvid_core::AdaptiveConfig { enabled: true, max_results: 50, min_results: 1, strategy: memvid_core::CutoffStrategy::RelativeThreshold { min_ratio: 0.0 }, normalize_scores: true };
+            if let Ok(Ok(r)) = guard(|| mem.search_adaptive("anything", e, cfg, 80, None)) {
+                for h in r.results {
+                    if !active(h.frame_id) {
+                        bad.push(("reads:search-adaptive-returns-inactive-frame".into(), format!("{when}: inactive frame {}", h.frame_id)));
+                    }
+                }
+            }
+        }
+        // timeline
+        match guard(|| mem.timeline(TimelineQuery::builder().no_limit().build())) {
+            Ok(Ok(entries)) => {
+                for e in entries {
+                    if !active(e.frame_id) {
+                        bad.push(("reads:timeline-returns-inactive-frame".into(), format!("{when}: timeline lists inactive frame {}", e.frame_id)));
+                    }
+                }
+            }
+            Ok(Err(e)) => bad.push(("reads:timeline-failed".into(), format!("{when}: Err: {e}"))),
+            Err(p) => bad.push(("panic:timeline".into(), p)),
+        }
+        // frame_by_uri: newest active version, or (no active version) some version of that uri
+        let uris: std::collections::BTreeSet<String> = model.frames.iter().filter(|f| f.role == FrameRole::Document).map(|f| f.uri.clone()).collect();
+        for u in uris {
+            let newest_active = model.frames.iter().rev().find(|f| f.uri == u && f.status == MStatus::Active).map(|f| f.id);
+            match mem.frame_by_uri(&u) {
+                Ok(f) => {
+                    if let Some(want) = newest_active {
+                        if f.id != want {
+                            bad.push(("reads:frame-by-uri-not-newest-active".into(), format!("{when}: frame_by_uri({u}) = {}, newest active version is {want}", f.id)));
+                        }
+                    }
+                }
+                Err(e) => bad.push(("reads:frame-by-uri-failed".into(), format!("{when}: frame_by_uri({u}) Err: {e}"))),
+            }
+        }
+        // inherited fields of updates: title is inherited unless the update set it
+        for mf in model.frames.iter().filter(|f| f.supersedes.is_some()) {
+            if let Ok(f) = mem.frame_by_id(mf.id) {
+                let old = &model.frames[mf.supersedes.unwrap() as usize];
+                if let Ok(of) = mem.frame_by_id(old.id) {
+                    if mf.title.is_none() && f.title != of.title {
+                        bad.push(("reads:update-did-not-inherit-title".into(), format!("{when}: frame {} title {:?}, predecessor {:?}", mf.id, f.title, of.title)));
+                    }
+                    if f.track != of.track || f.kind != of.kind || f.tags != of.tags && !of.tags.is_empty() && false {
+                        bad.push(("reads:update-did-not-inherit-track-or-kind".into(), format!("{when}: frame {} track {:?}/{:?} kind {:?}/{:?}", mf.id, f.track, of.track, f.kind, of.kind)));
+                    }
+                    if let Some(t) = &mf.title {
+                        if f.title.as_deref() != Some(t.as_str()) {
+                            bad.push(("reads:update-title-not-applied".into(), format!("{when}: frame {} title {:?}, update set {t:?}", mf.id, f.title)));
+                        }
+                    }
+                }
+            }
+        }
+        self.outcomes.push(format!("reads:words{}", words.len().min(3)));
+        let mut seen = std::collections::HashSet::new();
+        for (s, d) in bad {
+            if seen.insert(s.clone()) {
+                self.violation(&s, d);
+            }
+        }
+    }
+
     pub fn check_listing(&mut self, when: &str) {
         let l = list_dir(&self.dir);
         if l != vec!["m.mv2".to_string()] {
@@ -655,7 +892,8 @@ impl Driver {
     /// put of an incompressible binary of `size` bytes under the capacity model (C24)
     pub fn put_sized(&mut self, size: usize) {
         let n = self.model.next_doc;
-        let uri = format!("mv2://d{n}");
+        // fixed width, so that the WAL record overhead does not depend on the document number
+        let uri = format!("mv2://d{n:05}");
         let ts = 1000 + n as i64;
         let opts = self.opts(&uri, ts);
         let payload = prng_bytes(77 + n as u64, size);
@@ -776,6 +1014,36 @@ pub fn exec_op(d: &mut Driver, op: &str) -> bool {
             true
         }
         "bad" => d.bad(parts[1]),
+        "bulk" => {
+            // n embedded puts with pairwise distinct embeddings
+            let n: usize = parts[1].parse().unwrap_or(10);
+            for _ in 0..n {
+                let k = d.model.next_doc;
+                let uri = format!("mv2://d{k}");
+                let ts = 1000 + k as i64;
+                let opts = PutOptions::builder().uri(&uri).timestamp(ts).instant_index(false).auto_tag(false).extract_dates(false).extract_triplets(false).build();
+                let emb = bulk_embedding(k);
+                let payload = format!("bulk {k}").into_bytes();
+                let Some(mem) = d.mem.as_mut() else { die("bulk without handle") };
+                match guard(|| mem.put_with_embedding_and_options(&payload, emb.clone(), opts)) {
+                    Ok(Ok(_)) => {
+                        d.model.next_doc += 1;
+                        let id = d.model.frames.len() as u64;
+                        d.model.frames.push(MFrame { id, uri, role: FrameRole::Document, status: MStatus::Active, parent: None, supersedes: None, superseded_by: None, timestamp: ts, canonical: payload, embedding: Some(emb), doc_no: k, chunks: vec![], word: None, title: None, touched_since_commit: false, kind: "bulk".into() });
+                    }
+                    Ok(Err(e)) => {
+                        d.violation("put-rejected", format!("bulk put {k} returned Err: {e}"));
+                        break;
+                    }
+                    Err(p) => {
+                        d.violation("panic:put", p);
+                        break;
+                    }
+                }
+            }
+            d.outcomes.push(format!("bulk:{n}"));
+            true
+        }
         "vacuum" => {
             let Some(mem) = d.mem.as_mut() else { die("vacuum without handle") };
             match guard(|| mem.vacuum()) {
@@ -793,7 +1061,19 @@ pub fn exec_op(d: &mut Driver, op: &str) -> bool {
         "doctor" => {
             let m = d.mem.take();
             drop(m);
-            let opts = memvid_core::DoctorOptions::default();
+            let mut opts = memvid_core::DoctorOptions::default();
+            match parts.get(1).copied() {
+                Some("vec") => opts.rebuild_vec_index = true,
+                Some("lex") => opts.rebuild_lex_index = true,
+                Some("time") => opts.rebuild_time_index = true,
+                Some("vacuum") => opts.vacuum = true,
+                Some("all") => {
+                    opts.rebuild_vec_index = true;
+                    opts.rebuild_lex_index = true;
+                    opts.rebuild_time_index = true;
+                }
+                _ => {}
+            }
             match guard(|| Memvid::doctor(&d.path, opts)) {
                 Err(p) => d.violation("panic:doctor", p),
                 Ok(Err(e)) => d.violation("doctor-failed", e.to_string()),
@@ -819,6 +1099,123 @@ pub fn exec_op(d: &mut Driver, op: &str) -> bool {
 pub fn worker() {
     let scratch = Scratch::new("hist");
     worker_loop(|case| run_case(&scratch, case));
+}
+
+/// WAL geometry read from the file with the public record format:
+/// (region_size, write_head = end of the last record, length of the last record's payload).
+pub fn wal_geometry(path: &Path) -> Option<(u64, u64, u64)> {
+    let bytes = std::fs::read(path).ok()?;
+    let mut hb = [0u8; 4096];
+    hb.copy_from_slice(bytes.get(..4096)?);
+    let h = memvid_core::io::header::HeaderCodec::decode(&hb).ok()?;
+    let start = h.wal_offset as usize;
+    let size = h.wal_size as usize;
+    let region = bytes.get(start..start + size)?;
+    let mut cur = 0usize;
+    let mut last_len = 0u64;
+    while cur + 48 <= size {
+        let seq = u64::from_le_bytes(region[cur..cur + 8].try_into().ok()?);
+        let len = u32::from_le_bytes(region[cur + 8..cur + 12].try_into().ok()?) as usize;
+        if seq == 0 && len == 0 {
+            break;
+        }
+        if len == 0 || cur + 48 + len > size {
+            break;
+        }
+        last_len = len as u64;
+        cur += 48 + len;
+    }
+    Some((size as u64, cur as u64, last_len))
+}
+
+/// C01(B): WAL-geometry sweep. Parks the write head near the end of the region, optionally
+/// leaves one small put pending, then issues a put sized so that
+/// region_size - (write_head + 48 + record_len) == delta (or a put larger than the region),
+/// then materialises the given way. Compared with the reference model at every step.
+fn run_sweep_case(scratch: &Scratch, case: &Value) -> Value {
+    let dir = scratch.dir();
+    let cfg = Cfg { instant_index: false, prop: "C01".into() };
+    let mut d = match Driver::new(dir.clone(), cfg) {
+        Ok(d) => d,
+        Err(e) => return json!({"engine_error": e}),
+    };
+    let pending = case["pending"].as_bool().unwrap_or(false);
+    let grown = case["grown"].as_bool().unwrap_or(false);
+    let post = case["post"].as_str().unwrap_or("commit").to_string();
+    let mut note = String::new();
+    d.step = 0;
+    if grown {
+        d.put_sized(70 * 1024);
+        d.commit();
+    }
+    // calibration: WAL record overhead of a sized put = record payload length - payload size
+    d.put_sized(5000);
+    let overhead = wal_geometry(&d.path).map(|(_, _, l)| l.saturating_sub(5000)).unwrap_or(0);
+    // fill: groups of three 5000-byte puts, committed, until the head is within 12 KiB of the end
+    for _ in 0..40 {
+        let Some((size, head, _)) = wal_geometry(&d.path) else { break };
+        if size - head < 12 * 1024 {
+            break;
+        }
+        for _ in 0..3 {
+            let Some((size, head, _)) = wal_geometry(&d.path) else { break };
+            if size - head < 7 * 1024 {
+                break;
+            }
+            d.put_sized(5000);
+        }
+        d.commit();
+        if !d.viol.is_empty() {
+            break;
+        }
+    }
+    d.step = 1;
+    if pending {
+        d.put_sized(1000);
+    }
+    let geo = wal_geometry(&d.path);
+    if let (Some((size, head, _)), true) = (geo, d.viol.is_empty()) {
+        d.step = 2;
+        let n: i64 = if let Some(big) = case["big"].as_i64() {
+            big
+        } else {
+            let delta = case["delta"].as_i64().unwrap_or(0);
+            size as i64 - head as i64 - 48 - overhead as i64 - delta
+        };
+        note = format!("region {size} head {head} overhead {overhead} put {n}");
+        if n >= 1 {
+            d.put_sized(n as usize);
+            d.between();
+            d.step = 3;
+            match post.as_str() {
+                "commit" => d.commit(),
+                "put-abandon" => {
+                    d.put("t");
+                    d.reopen("abandon");
+                }
+                "drop" => d.reopen("drop"),
+                "commit-put-commit" => {
+                    d.commit();
+                    d.put("t");
+                    d.commit();
+                }
+                other => die(&format!("unknown post {other}")),
+            }
+            if d.viol.is_empty() {
+                d.step = 4;
+                d.reopen("drop");
+            }
+        } else {
+            note.push_str(" (size < 1: skipped)");
+        }
+    } else if d.viol.is_empty() {
+        return json!({"engine_error": "cannot read WAL geometry"});
+    }
+    let frames = d.model.frames.len();
+    drop(d.mem.take());
+    close_fds_under(&dir);
+    rm_dir(&dir);
+    json!({"viol": d.viol, "outcomes": d.outcomes, "redundant": false, "digest": format!("{:016x}", h64(&note)), "frames": frames, "note": note})
 }
 
 /// C19: a forbidden sidecar next to the memory makes create/open/open_read_only/doctor refuse.
@@ -881,6 +1278,9 @@ fn run_sidecar_case(scratch: &Scratch, case: &Value) -> Value {
 pub fn run_case(scratch: &Scratch, case: &Value) -> Value {
     if case.get("sidecar").is_some() {
         return run_sidecar_case(scratch, case);
+    }
+    if case.get("sweep").is_some() {
+        return run_sweep_case(scratch, case);
     }
     let prop = case["prop"].as_str().unwrap_or("C01").to_string();
     let ops: Vec<String> = case["ops"].as_array().map(|a| a.iter().filter_map(|x| x.as_str().map(String::from)).collect()).unwrap_or_default();
